@@ -139,6 +139,8 @@ class Report:
             path = self._write_replay(sig, text)
             rc, out = self._run_replay(path)
             self.validated += 1
+            if rc == 1 and "VIOLATED" not in out:
+                rc = 99  # the replay script itself failed (an uncaught exception also exits 1): not a reproduction
             if rc < 0 and rc != -9 and self.crash_reproduces:
                 rc = 1
                 desc += " [replay: the compiled accessor crashed with a signal]"
